@@ -2,10 +2,12 @@ from reghelp import *
 
 CHECK = dict(
         mode='inputs',
-        runs=[dict(harness='h_ser', flavor='asan', execs=dict(quick=16, thorough=48), timeout=dict(quick=240, thorough=900), shapes=[None],
+        runs=[dict(harness='h_ser', flavor='asan', execs=dict(quick=16, thorough=32), timeout=dict(quick=240, thorough=900), shapes=[None],
                    cfg={}, cfg_quick={'inputs': 1400}, cfg_thorough={'inputs': 16000}),
-              dict(harness='h_ser', flavor='plain', execs=dict(quick=0, thorough=16), timeout=dict(quick=240, thorough=900), shapes=[None],
-                   cfg={}, cfg_thorough={'inputs': 24000})],
+              # the shipped flags without sanitizers: volume for the explicit oracles, and the only flavor in which the optimiser is free to
+              # show what it does with iovector.h's zero-length-array layout (stack probe in h_ser.cpp)
+              dict(harness='h_ser', flavor='plain', execs=dict(quick=2, thorough=16), timeout=dict(quick=240, thorough=900), shapes=[None],
+                   cfg={}, cfg_quick={'inputs': 1400}, cfg_thorough={'inputs': 32000})],
         par=16,
         level='exploration',
         rule='one evaluation = one checked (de)serialization: a seeded instance of one of 16 message types (plain fields, buffer, aligned_buffer, '
@@ -16,12 +18,12 @@ CHECK = dict(
              'variable-length field or the body straddles two fragments (copy path) or the message holds a sorted_map with >= 2 entries; a hostile input iff '
              'the edit really changed the bytes and the input is at least as long as the message body. distinct = distinct hash of (type, field contents, '
              'edit, cut points)',
-        floors=dict(quick=dict(evaluations=15000, events=30000, distinct=8000,
+        floors=dict(quick=dict(evaluations=17000, events=34000, distinct=9000,
                                cov={'roundtrip_ok': 3000, 'field_straddles_fragments': 3000, 'body_straddles_fragments': 2000, 'zero_length_field': 3000,
                                     'string_length_1': 300, 'map_ge2_entries': 500, 'checksum_mismatch_rejected': 800, 'checked_roundtrip_ok': 400,
                                     'hostile_accepted': 2000, 'hostile_rejected': 3000, 'allocator_copies': 5000, 'iovec_array_multi_fragment': 300,
                                     'zero_length_fragment': 300, 'map_find_calls': 2000, 'fields_walked': 10000, 'wire_lengths_exceed_input': 2000}),
-                    thorough=dict(evaluations=900000, events=1800000, distinct=500000,
+                    thorough=dict(evaluations=850000, events=1700000, distinct=500000,
                                   cov={'roundtrip_ok': 200000, 'field_straddles_fragments': 200000, 'body_straddles_fragments': 100000,
                                        'zero_length_field': 200000, 'string_length_1': 20000, 'map_ge2_entries': 30000, 'checksum_mismatch_rejected': 50000,
                                        'checked_roundtrip_ok': 25000, 'hostile_accepted': 120000, 'hostile_rejected': 200000, 'allocator_copies': 300000,
